@@ -378,7 +378,7 @@ func TestC06(t *testing.T) {
 						return
 					}
 					for _, v := range vars {
-						if len(pods) >= 2 && (v.Kind == "waiting" && (v.Reason != "ErrImagePull" || v.Shape != "" || v.StartAgo != 61) || v.Kind == "outdated" || v.Kind == "terminating") {
+						if len(pods) >= 2 && (v.Kind == "waiting" && (v.Reason != "ErrImagePull" || v.Shape != "" || v.StartAgo != 61) || v.Kind == "outdated" || v.Kind == "terminating" || v.Shape == "nolaststate") {
 							continue // third pod: reduced alphabet (ok, the restart counts, one stuck pod)
 						}
 						rec(append(append([]c06Pod{}, pods...), v))
